@@ -812,6 +812,11 @@ impl Ctx {
         });
         let _ = std::fs::create_dir_all(format!("{}/evidence", VERIF_DIR));
         let path = format!("{}/evidence/{}.json", VERIF_DIR, self.id);
+        if self.tier == Tier::Thorough {
+            // the per-property file always describes the latest run; the last thorough run is kept beside it
+            let _ = std::fs::create_dir_all(format!("{}/evidence/thorough", VERIF_DIR));
+            let _ = std::fs::write(format!("{}/evidence/thorough/{}.json", VERIF_DIR, self.id), serde_json::to_string_pretty(&evidence).unwrap());
+        }
         if let Err(e) = std::fs::write(&path, serde_json::to_string_pretty(&evidence).unwrap()) {
             machinery.push(format!("cannot write evidence: {}", e));
         }
